@@ -34,6 +34,7 @@ PROP = "C15"
 LEVEL = "fault_enumeration"
 RUNS = {"quick": 150, "thorough": 12000}
 TIME_CAP = {"quick": 400, "thorough": 1500}
+SELFCHECK_N = 4
 CHUNK = 1          # runs per worker task (cost-aware: keeps the time cap responsive)
 RULE = ("seeded AKAI (directories before or after the data), Roland and CDDA images, raw or inside 2352-byte sectors; each image is cut at "
         "every sector/cluster/raw-sector boundary and boundary+-1 (all of them for images up to 40 boundaries, a seeded subset beyond), at "
